@@ -36,12 +36,25 @@ func doLZ4Encode(data []byte, level int) ([]byte, error) {
 	return buf, nil
 }
 
+// lz4MaxRatio a lz4 block expands to at most 255 times its size
+const lz4MaxRatio = 255
+
 func doLZ4Decode(buf []byte) ([]byte, error) {
-	dst := make([]byte, 10*len(buf))
-	n, err := lz4.UncompressBlock(buf, dst)
-	if err != nil {
-		return nil, err
+	// 先按10倍分配，如果空间不足则增大（lz4最大压缩比为255）
+	size := 10 * len(buf)
+	maxSize := lz4MaxRatio * len(buf)
+	for {
+		dst := make([]byte, size)
+		n, err := lz4.UncompressBlock(buf, dst)
+		if err == nil {
+			return dst[:n], nil
+		}
+		if err != lz4.ErrInvalidSourceShortBuffer || size >= maxSize {
+			return nil, err
+		}
+		size *= 4
+		if size > maxSize {
+			size = maxSize
+		}
 	}
-	dst = dst[:n]
-	return dst, nil
 }
